@@ -230,6 +230,29 @@ def check_derive(ctx, case):
     if root is None:
         return
 
+    # read-only requests on a key object (addresses in either form, hash, exports) before it is used as a parent:
+    # what is derived below it - key, chain code and the parent fingerprint in the children - does not depend on them
+    def touch(k):
+        for how in case.get('touch') or ():
+            try:
+                if how == 'address_uncompressed':
+                    k.address_uncompressed()
+                elif how == 'address_uncompressed_explicit':
+                    k.address(compressed=False, encoding='base58', script_type='p2pkh')
+                elif how == 'address':
+                    k.address()
+                elif how == 'address_obj':
+                    k.address_obj
+                elif how == 'hash160':
+                    k.hash160
+                elif how == 'wif':
+                    k.wif()
+                elif how == 'public':
+                    k.public()
+            except Exception:
+                pass
+    touch(root)
+
     # 2. private derivation along the whole path ----------------------------------------------------------
     lib_nodes = None
     try:
@@ -237,6 +260,7 @@ def check_derive(ctx, case):
             lib_nodes = [root]
             for idx, hard, _m in path:
                 lib_nodes.append(lib_nodes[-1].child_private(index=idx, hardened=hard))
+                touch(lib_nodes[-1])
             end = lib_nodes[-1]
         else:
             end = root.subkey_for_path(_path_arg(path, prefix, style))
@@ -493,6 +517,9 @@ def derive_strategy(ctx):
             if draw(st.booleans()):
                 path[hpos][0] = draw(st.sampled_from([0, 0, 1, HARD - 1]))
         case['path'] = path
+        case['touch'] = draw(st.one_of(st.just([]), st.lists(st.sampled_from(
+            ['address_uncompressed', 'address_uncompressed_explicit', 'address', 'address_obj', 'hash160', 'wif',
+             'public']), min_size=1, max_size=3)))
         case['style'] = draw(st.sampled_from(['str', 'str', 'list', 'steps']))
         case['prefix'] = draw(st.sampled_from(['m', '']))
         if j is not None:
